@@ -66,7 +66,7 @@ impl SortingInference<'_> {
             .collect::<HashMap<_, _>>();
 
         // a map of column -> alias
-        let column_aliases = self
+        let mut column_aliases = self
             .ctx
             .anchor
             .column_decls
@@ -82,7 +82,10 @@ impl SortingInference<'_> {
                     None
                 }
             })
-            .collect::<HashMap<_, _>>();
+            .collect::<Vec<_>>();
+        // when a column has several aliases, always pick the same one
+        column_aliases.sort();
+        let column_aliases = column_aliases.into_iter().collect::<HashMap<_, _>>();
         log::debug!(".. column aliases: {column_aliases:?}");
 
         // column -> list of tables that did a revert
